@@ -4,6 +4,7 @@
     (Props/C05.v, C05_names_are_spec).  Also anchored: the order in which save_impl writes the
     top-level files, which is the order of the model's [paths_of]. *)
 Require Import Norad.Model.Base Norad.Model.FontRT Norad.Model.FontToy Gen.Anchors_C01.
+Require Import Norad.Model.FontInfoFile Norad.Model.FontInfoSchema Norad.Proofs.FontInfoFileP.
 Open Scope N_scope.
 
 Lemma anchor_names : x_names = norad_names.
@@ -15,3 +16,15 @@ Lemma anchor_save_order :
                   n_kerning norad_names; n_features norad_names; n_layercontents norad_names;
                   n_data_dir norad_names; n_images_dir norad_names].
 Proof. reflexivity. Qed.
+
+(** fontinfo.plist: the schema extracted from src/fontinfo.rs (every field of FontInfo and of the
+    structs / enums it nests: plist key after renaming, leaf kind, Option / skip_serializing_if /
+    default, deny_unknown_fields) is the model's constant; its writer and reader flags agree, so
+    every well-typed value is read back from what is written for it. *)
+Lemma anchor_fontinfo_schema : x_font_info_schema = font_info_schema.
+Proof. vm_compute. reflexivity. Qed.
+Lemma anchor_fontinfo_schema_rt_ok : schema_rt_ok x_font_info_schema = true.
+Proof. vm_compute. reflexivity. Qed.
+Lemma anchor_fontinfo_roundtrip : forall v, wt x_font_info_schema v = true ->
+  read_s x_font_info_schema (write_s x_font_info_schema v) = Some v.
+Proof. exact (schema_roundtrip x_font_info_schema anchor_fontinfo_schema_rt_ok). Qed.
